@@ -40,7 +40,14 @@ def random_image(rng):
     areas = []
     addr = rng.choice([0, 0x100, 0xFF00, 0xFFF0, 0x1FFF0, 0xC0D00000, 0x2000])
     for _ in range(n):
-        ln = rng.choice([1, 2, 16, 40, 255, 256, 300, 1000]) if rng.random() < 0.6 else rng.randint(1, 600)
+        r = rng.random()
+        if r < 0.12:
+            # sizes on and around the powers of two a hashing or flashing loop is likely to chunk by
+            ln = rng.choice([64, 128, 512, 1024, 4096, 8192, 4095, 4097, 12288, 16384, 65536])
+        elif r < 0.6:
+            ln = rng.choice([1, 2, 16, 40, 255, 256, 300, 1000])
+        else:
+            ln = rng.randint(1, 600)
         data = bytes(rng.getrandbits(8) for _ in range(ln))
         areas.append((addr, data))
         gap = rng.choice([1, 1, 7, 0x100, 0x10000, 0x20000 - (ln % 0x10000)])
